@@ -29,6 +29,21 @@ type CRespCodec struct {
 	MsgMaxLength int
 }
 
+// protocol limits of a Redis server: larger counts / lengths are protocol errors
+const (
+	maxArrayLen = 1024 * 1024
+	maxBulkLen  = 512 * 1024 * 1024
+)
+
+// sizeHint bounds the capacity pre-allocated for n arguments by what the buffered bytes
+// can hold at all (an argument takes at least 6 bytes: "$0\r\n\r\n")
+func sizeHint(n int, buf *codec.Buffer) int {
+	if max := buf.TotalSize()/6 + 1; n > max {
+		return max
+	}
+	return n
+}
+
 // There are three cases of protocol parsing
 // 1. successful parsing
 // 2. tcp packet incompleteness leads to parsing exceptions, wait for the next event loop
@@ -55,7 +70,7 @@ func (rc *CRespCodec) Decode(c CConn) (*Msg, error) {
 	switch line[0] {
 	case '*':
 		n, err = parseLen(line[1:])
-		if n < 1 || err != nil {
+		if n < 1 || n > maxArrayLen || err != nil {
 			logging.Warnf("[%dm][%dc] unexpect resp, buf: %s", msgId, c.Fd(), utils.FormatRedisRESPMessages(buf.PeekAll()))
 			return nil, codec.ErrInvalidResp
 		}
@@ -77,8 +92,8 @@ func (rc *CRespCodec) Decode(c CConn) (*Msg, error) {
 	resp.Id = msgId
 	resp.Owner = c
 	resp.Type = codec.Transform2Type(msg, n)
-	resp.Body = make(map[int32]*Frag, n)
-	resp.Fd2Slot = make(map[int]int32, n)
+	resp.Body = make(map[int32]*Frag, sizeHint(n, buf))
+	resp.Fd2Slot = make(map[int]int32, sizeHint(n, buf))
 
 	if rc.sizeTooLarge(buf.TotalSize()) {
 		resp.Type = codec.ReqTooLarge
@@ -118,7 +133,7 @@ func (rc *CRespCodec) Decode(c CConn) (*Msg, error) {
 }
 
 func (rc *CRespCodec) Frag1(c CConn, n int, resp *Msg, buf *codec.Buffer) error {
-	resp.Frags = make(map[int32][]string, n)
+	resp.Frags = make(map[int32][]string, sizeHint(n, buf))
 	for i := 0; i < n; i++ {
 		msg, err := rc.parseLine(buf)
 		if err != nil {
@@ -140,7 +155,7 @@ func (rc *CRespCodec) Frag1(c CConn, n int, resp *Msg, buf *codec.Buffer) error 
 }
 
 func (rc *CRespCodec) Frag2(c CConn, n int, resp *Msg, buf *codec.Buffer) error {
-	resp.Frags2 = make(map[int32][][2]string, n/2)
+	resp.Frags2 = make(map[int32][][2]string, sizeHint(n/2, buf))
 	for i := 0; i < n; i = i + 2 {
 		msg, err := rc.parseLine(buf)
 		if err != nil {
@@ -296,7 +311,7 @@ func (rc *CRespCodec) parseLine(buf *codec.Buffer) ([]byte, error) {
 	switch line[0] {
 	case '$':
 		n, err := parseLen(line[1:])
-		if n < 0 || err != nil {
+		if n < 0 || n > maxBulkLen || err != nil {
 			// a request argument is never a null bulk and its length is a plain decimal number
 			return nil, codec.ErrInvalidResp
 		}
